@@ -597,6 +597,10 @@ class JournalStorageReplayResult:
 
         state = TrialState(log["state"])
         if state == self._trials[trial_id].state and state == TrialState.RUNNING:
+            # The request is rejected. Forget the ownership so that the issuer, even if it is the
+            # worker that started this trial, is told that the state was not updated.
+            if self._is_issued_by_this_worker(log):
+                self._worker_id_to_owned_trial_id.pop(self.worker_id, None)
             return
 
         trial = copy.copy(self._trials[trial_id])
